@@ -115,13 +115,17 @@ class World:
     """one application + protected default handler"""
     built = 0
     def __init__(self, clock, alg, qop, timeout, realm, required,
-                 secret="s3cr3t", pmap=True):
+                 secret="s3cr3t", pmap=True, secret_in_environ=False):
         from poorwsgi import wsgi, digest, state
         self.clock = clock
         self.alg, self.qop, self.timeout = alg, qop, timeout
         self.realm, self.required, self.secret = realm, required, secret
         self.hf = wsgi.AUTH_DIGEST_ALGORITHMS[alg]      # real or fake
-        app = new_app(secret_key=secret)
+        # the effective secret may come from the request environ
+        # (poor_SecretKey overrides the application attribute)
+        self.secret_in_environ = secret_in_environ
+        app = new_app(secret_key="application-level-key"
+                      if secret_in_environ else secret)
         # the settings are independent: every order of assignment must give
         # the same authentication behaviour (examples/http_digest.py sets the
         # algorithm before the type)
@@ -159,8 +163,11 @@ class World:
             hdrs["User-Agent"] = agent
         if header is not None:
             hdrs["Authorization"] = header
+        extra = {"SERVER_NAME": HOST}
+        if self.secret_in_environ:
+            extra["poor_SecretKey"] = self.secret
         env = environ(method=method, path=lat(path), query=query,
-                      headers=hdrs, extra={"SERVER_NAME": HOST})
+                      headers=hdrs, extra=extra)
         del self.ran[:]
         ans = call(self.app, env)
         www = ans.header("WWW-Authenticate") if ans.calls else None
@@ -595,7 +602,8 @@ def worlds_for(clock, quick, fake):
             timeout = [300, 60, 7, None, 0][variant % 5] if not fake or \
                 variant % 3 else 300
             out.append(World(clock, alg, qop, timeout, realm, required,
-                             pmap=bool(variant % 2)))
+                             pmap=bool(variant % 2),
+                             secret_in_environ=variant % 3 == 1))
     return out
 
 
@@ -815,6 +823,7 @@ def run(ctx):
         # -------------------------------------------- monitor, real hashes
         session.sha256, digest.sha256, results.sha256 = saved[1:4]
         wsgi.AUTH_DIGEST_ALGORITHMS.update(saved[4])
+        tables_are_per_application(ctx, clock)
         for wnum, world in enumerate(worlds_for(clock, ctx.quick, False)):
             oracle = Oracle(world)
             tmo = world.timeout or 300
@@ -980,6 +989,47 @@ def nonce_of_a_refusal(ctx, world, epoch_us):
                 "same_nonce_as_first_challenge":
                     chal_b["nonce"] == chal_a["nonce"],
                 "observed": again})
+
+
+def tables_are_per_application(ctx, clock):
+    """users registered in place on one application's own table must not
+    be known to another application of the same process"""
+    from poorwsgi import digest, state
+    ran = []
+
+    def build(register):
+        app = new_app(secret_key="shared-secret")
+        app.auth_type = "Digest"
+        if register:
+            app.auth_map.setdefault("R", {})["u"] = digest.hexdigest(
+                "u", "R", "pw", hashlib.md5)
+
+        def protected(req):
+            ran.append(req.user)
+            return "ok"
+        app.set_default(digest.check_digest("R")(protected),
+                        state.METHOD_ALL)
+        return app
+    first, second = build(True), build(False)
+    clock.us = 1790000000 * 10 ** 6
+    for app, known in ((first, True), (second, False)):
+        ans = call(app, environ(path="/p", headers={"User-Agent": "ua"},
+                                extra={"SERVER_NAME": HOST}))
+        chal = parse_challenge(ans.header("WWW-Authenticate"))
+        fields = client_fields(hashlib.md5, "MD5-sess", "auth", "u", "R",
+                               "pw", chal["nonce"], chal["opaque"], "GET",
+                               "/p")
+        del ran[:]
+        ans = call(app, environ(path="/p", headers={
+            "User-Agent": "ua", "Authorization": serialize(fields)},
+            extra={"SERVER_NAME": HOST}))
+        ctx.case(("two-apps", known), True, {"registered_here": known})
+        ctx.count("monitor:two-applications")
+        if bool(ran) != known:
+            ctx.violation("digest-user-table-shared-between-applications"
+                          if ran else "digest-correct-header-rejected:two-apps",
+                          {"registered_on_this_application": known,
+                           "endpoint_ran": bool(ran), "status": ans.status})
 
 
 def retry_after_stale(ctx, world, req, obs):
